@@ -366,8 +366,12 @@ def _run(tier, seed, t0, on_accept=None):
         for i in range(k):
             l, r_ = chain[i], chain[i + 1]
             eqs.append(Eq(r_, l) if rng.random() < 0.4 else Eq(l, r_))
+        if rng.random() < 0.3:
+            # a chain that loops back to its start (the chained equality is then x = x)
+            chain[-1] = chain[0]
+            eqs[-1] = Eq(chain[-2], chain[0]) if rng.random() < 0.5 else Eq(chain[0], chain[-2])
         goals = [Eq(chain[0], chain[-1]), Eq(chain[-1], chain[0]), Eq(chain[0], chain[1]),
-                 Eq(chain[0], rng.choice(terms)), Eq(chain[1], chain[-1])]
+                 Eq(chain[0], rng.choice(terms)), Eq(chain[1], chain[-1]), Eq(rng.choice(terms), chain[0])]
         for goal in goals:
             try_rule('verit_eq_transitive', tuple(Not(e) for e in eqs) + (goal,), [], 'equality')
             try_rule('verit_eq_transitive', tuple(Not(e) for e in eqs[:-1]) + (goal,), [], 'equality')
